@@ -175,6 +175,13 @@ pub fn reader_stats_route(file: &[u8], cuts: &[usize], path: u8, limit: Option<u
                             }
                         }
                     }
+                    // after the end / after a failure every further call has to RETURN (whatever it answers is C18's business): a call
+                    // that waits for input that is only offered again trips the spin detection of the reader
+                    let _ = reader.finish();
+                    let _ = reader.finish();
+                    let _ = reader.next_frame(&mut buf);
+                    let _ = reader.next_row();
+                    let _ = reader.next_frame_info();
                     let _ = reader.finish();
                 } else {
                     st.outcome = "too-large-for-harness".into();
@@ -186,6 +193,45 @@ pub fn reader_stats_route(file: &[u8], cuts: &[usize], path: u8, limit: Option<u
         st.max_zero_consume_run = counters.max_zero_consume_run.load(Ordering::Relaxed);
         st.bytes = counters.bytes.load(Ordering::Relaxed);
         st
+    })
+}
+
+/// A source that is NOT READY from offset `at` on (`fill_buf` answers `WouldBlock` every time): each public call has to hand that
+/// error to its caller after a bounded number of polls - a decoder that retries by itself never returns.  Returns the largest number
+/// of polls of the blocked source made by ONE call, and what the calls answered.
+pub fn blocked_source_polls(file: &[u8], at: usize, path: u8) -> Result<(usize, String), String> {
+    let file = file.to_vec();
+    guarded(move || {
+        let mut rd = PieceReader::new(file, vec![]);
+        rd.block_at = at;
+        let counters = rd.counters.clone();
+        let polls = |c: &crate::iowrap::Counters| c.blocked_polls.load(Ordering::Relaxed);
+        let mut worst = 0usize;
+        let mut out = String::new();
+        let dec = png::Decoder::new(rd);
+        let before = polls(&counters);
+        match dec.read_info() {
+            Err(e) => {
+                worst = worst.max(polls(&counters) - before);
+                out = format!("read_info:{}", err_class(&e));
+            }
+            Ok(mut reader) => {
+                worst = worst.max(polls(&counters) - before);
+                let mut buf = vec![0u8; reader.output_buffer_size().min(1 << 26)];
+                for k in 0..6 {
+                    let before = polls(&counters);
+                    let r = match (path + k) % 4 {
+                        0 => reader.next_frame(&mut buf).map(|_| ()),
+                        1 => reader.next_row().map(|_| ()),
+                        2 => reader.next_frame_info().map(|_| ()),
+                        _ => reader.finish(),
+                    };
+                    worst = worst.max(polls(&counters) - before);
+                    out.push_str(&match r { Ok(()) => "ok ".to_string(), Err(e) => format!("{} ", err_class(&e)) });
+                }
+            }
+        }
+        (worst, out)
     })
 }
 
@@ -256,6 +302,28 @@ fn special_files(rng: &mut Rng) -> Vec<corpus::TestFile> {
     zt.extend(rng.bytes(40));
     out.push(mk(vec![ihdr(40, 30, 8, 2, 0), RawChunk::new(b"IDAT", zt), RawChunk::new(b"IEND", vec![])], "trailing-bytes-after-stream"));
     out.push(mk(vec![ihdr(40, 30, 8, 2, 0), RawChunk::new(b"IDAT", z.clone()), RawChunk::new(b"IDAT", rng.bytes(100)), RawChunk::new(b"IDAT", vec![]), RawChunk::new(b"IDAT", rng.bytes(3)), RawChunk::new(b"IEND", vec![])], "trailing-idat-after-stream"));
+    // bytes after IEND; an animation that declares more frames than the file holds, with bytes after IEND; an IEND whose CRC is
+    // wrong (finish() fails, the caller asks again): every call after the end has to return, not wait for bytes that are offered
+    // again and again (the 0.17.15 hang)
+    for extra in [1usize, 100] {
+        let mut bytes = serialize(&[ihdr(40, 30, 8, 2, 0), RawChunk::new(b"IDAT", z.clone()), RawChunk::new(b"IEND", vec![])]);
+        bytes.extend(rng.bytes(extra));
+        out.push(corpus::TestFile { bytes, source: "bytes-after-iend".into(), model_domain: false });
+    }
+    {
+        let mut fc = vec![0u8; 26];
+        fc[4..8].copy_from_slice(&40u32.to_be_bytes());
+        fc[8..12].copy_from_slice(&30u32.to_be_bytes());
+        fc[20..22].copy_from_slice(&1u16.to_be_bytes());
+        fc[22..24].copy_from_slice(&10u16.to_be_bytes());
+        let mut bytes = serialize(&[ihdr(40, 30, 8, 2, 0), actl(3, 0), RawChunk::new(b"fcTL", fc), RawChunk::new(b"IDAT", z.clone()), RawChunk::new(b"IEND", vec![])]);
+        bytes.extend(rng.bytes(64));
+        out.push(corpus::TestFile { bytes, source: "more-frames-declared-than-present+bytes-after-iend".into(), model_domain: false });
+        let mut bytes = serialize(&[ihdr(40, 30, 8, 2, 0), RawChunk::new(b"IDAT", z.clone()), RawChunk::new(b"IEND", vec![])]);
+        let n = bytes.len();
+        bytes[n - 1] ^= 0x55;
+        out.push(corpus::TestFile { bytes, source: "iend-with-wrong-crc".into(), model_domain: false });
+    }
     // deflate bomb: 8 MiB of zeros in a tiny stream, image header claims it
     let w = 4096u32;
     let h = 2048u32;
@@ -370,11 +438,50 @@ pub fn run(ctx: &mut Ctx) {
             ctx.rep.sample(J::obj().set("source", J::s(&f.source)).set("bytes", J::i(f.bytes.len() as u64)));
         }
     }
+    // a source that is not ready (WouldBlock from some offset on): every call returns the error after a bounded number of polls
+    let valid: Vec<&corpus::TestFile> = files.iter().filter(|f| f.model_domain && f.bytes.len() > 60 && f.bytes.len() < 100_000).take(ctx.n(12, 60)).collect();
+    for (i, f) in valid.iter().enumerate() {
+        let mut r = rng.fork(77_000 + i as u64);
+        let mut ats = vec![0usize, 8, 20, 33, f.bytes.len() - 12, f.bytes.len() - 4, f.bytes.len()];
+        for _ in 0..4 {
+            ats.push(r.usize(34, f.bytes.len()));
+        }
+        for at in ats {
+            for path in 0..3u8 {
+                ctx.rep.eval(true, fnv64(&f.bytes) ^ ((at as u64) << 8) ^ 0xB10C ^ path as u64);
+                ctx.rep.count("blocked source: offset", if at < 33 { "inside signature / IHDR" } else if at + 12 >= f.bytes.len() { "inside IEND" } else { "behind IHDR" });
+                let case = || J::obj().set("file", J::s(&hex(&f.bytes))).set("schedule", J::s("blocked")).set("block_at", J::i(at as u64)).set("path", J::i(path));
+                match blocked_source_polls(&f.bytes, at, path) {
+                    Err(p) => ctx.rep.violation("oracle", "reader/panic", &format!("a call on a source that is not ready panicked: {}", p), case()),
+                    Ok((worst, out)) => {
+                        ctx.rep.count("blocked source: polls by one call", &(match worst { 0 => "0", 1 => "1", 2..=4 => "2-4", _ => ">4" }).to_string());
+                        if worst > 8 {
+                            ctx.rep.violation("oracle", "reader/retries-a-source-that-is-not-ready", &format!("one call polled a source that answers WouldBlock {} times (offset {}; results: {})", worst, at, out), case());
+                        }
+                    }
+                }
+            }
+        }
+    }
 }
 
 pub fn replay(ctx: &mut Ctx, case: &J) {
     let file = case.get("file").and_then(|f| f.as_str()).and_then(unhex).unwrap_or_default();
     let sched = case.get("schedule").and_then(|f| f.as_str()).unwrap_or("whole");
+    if sched == "blocked" {
+        let at = case.get("block_at").and_then(|f| f.as_i64()).unwrap_or(0) as usize;
+        let path = case.get("path").and_then(|f| f.as_i64()).unwrap_or(0) as u8;
+        ctx.rep.eval(true, fnv64(&file) ^ 0xB10C);
+        match blocked_source_polls(&file, at, path) {
+            Err(p) => ctx.rep.violation("oracle", "reader/panic", &format!("a call on a source that is not ready panicked: {}", p), case.clone()),
+            Ok((worst, out)) => {
+                if worst > 8 {
+                    ctx.rep.violation("oracle", "reader/retries-a-source-that-is-not-ready", &format!("one call polled a source that answers WouldBlock {} times (offset {}; results: {})", worst, at, out), case.clone());
+                }
+            }
+        }
+        return;
+    }
     let cuts: Vec<usize> = if sched == "bytewise" { (1..file.len()).collect() } else { vec![] };
     let f = corpus::TestFile { bytes: file, source: "replay".into(), model_domain: false };
     let mut opts = DEFAULT_OPTS;
